@@ -111,5 +111,6 @@ func init() {
 	c14Redirect(repo+"iplddecoders.DecodeTransaction", "c14Model_DecodeTransaction")
 	c14Redirect(repo+"iplddecoders.DecodeDataFrame", "c14Model_DecodeDataFrame")
 	c14Redirect(repo+"solana-tx-meta-parsers.ParseTransactionStatusMetaContainer", "c14Model_ParseMeta")
+	c14Redirect(repo+"solana-tx-meta-parsers.ParseAnyTransactionStatusMeta", "c14Model_ParseAnyMeta")
 	c14Redirect("github.com/gagliardetto/binary.UnmarshalBin", "c14Model_UnmarshalBin")
 }
